@@ -43,6 +43,14 @@ func (env *Env) footprintOfTargets(mods []Expr) (*footprint, error) {
 				fp.all = true
 				continue
 			}
+			if x.Name == "views" {
+				for _, gn := range e.DB.Layered {
+					if _, ok := e.DB.GhostVars[gn]; ok {
+						fp.whole["G|"+gn] = true
+					}
+				}
+				continue
+			}
 			if _, ok := e.DB.GhostVars[x.Name]; ok {
 				fp.whole["G|"+x.Name] = true
 				continue
